@@ -10,8 +10,8 @@ import importlib.util
 from concurrent.futures import ThreadPoolExecutor
 
 VERIF = os.path.dirname(os.path.dirname(os.path.abspath(__file__)))
-PY = os.path.join(VERIF, '.venv/bin/python')
-CROSSHAIR = os.path.join(VERIF, '.venv/bin/crosshair')
+PY = os.path.join(VERIF, '.venv/bin/python') if os.path.exists(os.path.join(VERIF, '.venv/bin/python')) else '/verif/.venv/bin/python'
+CROSSHAIR = os.path.join(os.path.dirname(PY), 'crosshair')
 
 HOLDS, VIOLATED, INCONCLUSIVE = 'holds', 'violated', 'inconclusive'
 
@@ -138,7 +138,9 @@ def run_many(jobs, workers=16):
                 r['status'] = INCONCLUSIVE
                 r['error'] = f'reachability twin {j["twin"]} found no witness ({w["reach"]}): vacuous or undecided harness'
         elif r['status'] == HOLDS:
-            r['reach'] = 'sat' if j.get('self_reach') else None
+            # no separate twin: CrossHair reports 'Unable to meet precondition' (-> inconclusive) when no path satisfies the
+            # preconditions, so a confirmed condition has executed the real code on at least one path
+            r['reach'] = 'sat'
         return r
     with ThreadPoolExecutor(max_workers=workers) as ex:
         return list(ex.map(one, jobs))
